@@ -643,7 +643,18 @@ func (m *Manager) persistState() error {
 		return err
 	}
 
-	return os.WriteFile(m.stateFile, data, 0600)
+	// Write to a temporary file and rename it over the state file, so that a
+	// crash in the middle of a save never leaves a truncated state file behind
+	// (which would make the agent come up awake on the next start).
+	tempFile := m.stateFile + ".tmp"
+	if err := os.WriteFile(tempFile, data, 0600); err != nil {
+		return err
+	}
+	if err := os.Rename(tempFile, m.stateFile); err != nil {
+		os.Remove(tempFile)
+		return err
+	}
+	return nil
 }
 
 // LoadState loads persisted state from disk.
